@@ -25,6 +25,10 @@ struct Case {
     receiver: usize,
     sender: usize,
     seed: String,
+    /// the sender's polynomial has 65536 + t coefficients (its length wraps to t in 16 bits), with a valid
+    /// proof of knowledge and shares that lie on it
+    #[serde(default)]
+    wrap: bool,
 }
 
 impl Prop for C08 {
@@ -61,11 +65,16 @@ impl Prop for C08 {
                     for r in 0..n as usize {
                         for s in 0..n as usize {
                             if r != s {
-                                out.push(serde_json::to_value(Case { suite: suite.to_string(), n, t, idkind, receiver: r, sender: s, seed: format!("s{seed}") }).unwrap());
+                                out.push(serde_json::to_value(Case { suite: suite.to_string(), n, t, idkind, receiver: r, sender: s, seed: format!("s{seed}"), wrap: false }).unwrap());
                             }
                         }
                     }
                 }
+            }
+        }
+        for suite in if tier == Tier::Thorough { REAL_SUITES.to_vec() } else { vec!["ed25519", "secp256k1-tr"] } {
+            for (r, s) in [(0usize, 1usize), (2, 0)] {
+                out.push(serde_json::to_value(Case { suite: suite.to_string(), n: 3, t: 2, idkind: IdKind::Seq, receiver: r, sender: s, seed: format!("s{seed}"), wrap: true }).unwrap());
             }
         }
         out
@@ -113,6 +122,54 @@ fn run_case<C: Suite>(c: &Case) -> Outcome {
     let (h_sp2, h_p2) = C::w_part2(a.sp1[&r].clone(), &honest_r1).expect("honest part2");
     if C::w_part3(&h_sp2, &honest_r1, &honest_r2).is_err() {
         o.fail(format!("{tag}/setup"), format!("{ctx}: honest part3 failed"));
+        return o;
+    }
+    if c.wrap {
+        // sender's polynomial: t seeded coefficients followed by 65536 ones
+        let long = 65536usize + c.t as usize;
+        let mut coeffs: Vec<frost_core::Scalar<C>> = a.sp1[&s].coefficients().to_vec();
+        coeffs.resize(long, one::<C>());
+        let mut elems = commitment_elems::<C>(a.p1[&s].commitment());
+        elems.resize(long, G::<C>::generator());
+        let comm = VerifiableSecretSharingCommitment::<C>::new(elems.iter().map(|e| CoefficientCommitment::new(*e)).collect());
+        let mut rng = ScriptedRng::ctr("wrap-pok");
+        let pok = fc::keys::dkg::compute_proof_of_knowledge(s, &coeffs, &comm, &mut rng).expect("pok");
+        let pkg = d1::Package::<C>::new(comm, pok);
+        let mut m = honest_r1.clone();
+        m.insert(s, pkg);
+        o.eval(true);
+        let what = "commitment-length-65536+t-valid-proof";
+        match C::w_part2(a.sp1[&r].clone(), &m) {
+            Err(e) => {
+                o.count("faults_rejected", 1);
+                o.count("wrapping_length_rejected", 1);
+                let got = culprit_set::<C>(&e);
+                if !(got.is_empty() || got == vec![id_hex::<C>(&s)]) {
+                    o.fail(format!("{tag}/wrong-culprit/{what}"), format!("{ctx}: part2 failed with {e:?}; culprits {got:?}"));
+                }
+            }
+            Ok((sp2, _)) => {
+                // the sender's share for the receiver lies on its long polynomial
+                let x = id_scalar::<C>(&r);
+                let mut acc = zero::<C>();
+                for cf in coeffs.iter().rev() {
+                    acc = acc * x + *cf;
+                }
+                let mut r2 = honest_r2.clone();
+                r2.insert(s, d2::Package::<C>::new(fc::keys::SigningShare::new(acc)));
+                match C::w_part3(&sp2, &m, &r2) {
+                    Err(e) => {
+                        o.count("faults_rejected", 1);
+                        o.fail(format!("{tag}/fault-not-caught-at-first-consuming-step/{what}"), format!("{ctx}: part2 accepted a commitment of {long} coefficients (threshold {}); part3 then failed with {e:?}", c.t));
+                    }
+                    Ok((kp, pkp)) => {
+                        let consistent = gen_mul::<C>(kp.signing_share().to_scalar()) == pkp.verifying_shares()[&r].to_element();
+                        o.fail(format!("{tag}/fault-accepted/{what}"), format!("{ctx}: part2 and part3 returned Ok for a peer commitment of {long} coefficients (threshold {}); key material recorded threshold {}, own share matches own public entry: {consistent}", c.t, kp.min_signers()));
+                    }
+                }
+            }
+        }
+        o.class("wrapping-length");
         return o;
     }
     let stranger = Identifier::<C>::try_from(31337u16).unwrap();
